@@ -88,6 +88,14 @@ def cases(draw, tier):
     if what == "cli":
         case["mode"] = draw(st.sampled_from(["-r", "-p"]))
         case["sub"] = draw(st.sampled_from(SUB))
+        if case["mode"] == "-p" and \
+                (len(spec["rows"]) + len(spec["rows"][0])) % 2 == 0:
+            # presence/absence of negative entries is presence too
+            spec["rows"] = [[-x if (i + j) % 2 else x
+                             for j, x in enumerate(r)]
+                            for i, r in enumerate(spec["rows"])]
+            spec["history"] = [o for o in spec["history"]
+                               if o["op"] != "subsample"]
         spec["obs_md"] = spec["samp_md"] = None
         spec["type"] = "OTU table"
     return case
